@@ -31,7 +31,7 @@ private theorem rd_writeSanity_out (m : Mem) (r : Nat) (k : Kind) (mg : Nat) (i 
 /-- a freshly constructed arena (Vec, anonymous map, newly created file) satisfies the invariant with an
     empty free list and no handles, and represents `A.fresh` -/
 theorem init_cinv (o : Opts) (s : St) (h : o.init = some s) (hcap : o.cap + 8192 ≤ TWO32)
-    (hms : o.minSeg < TWO32) (hr : 1 ≤ o.retries ∧ o.retries ≤ 255) :
+    (hms : o.minSeg < TWO32) (hr : o.retries ≤ 255) :
     CInv o.cfg s [] [] ∧ s.abs [] = A.fresh o.cap o.dataOffset o.minSeg ∧ s.cap = o.cap ∧
     (∀ i, o.dataOffset ≤ i → s.mem.rd i = 0) := by
   unfold Opts.init at h
